@@ -209,7 +209,8 @@ class Flattener(object):
                     return None
                 return callee, (None if 'staticmethod' in deco else f.value)
             # a local name bound once to a copy of self is an object of the same class: its private methods are known
-            if cls is not None and getattr(self, '_node', None) is not None and f.value.id not in prog.classes:
+            if cls is not None and getattr(self, '_node', None) is not None and f.value.id not in prog.classes and _is_private(f.attr) and \
+                    prog.resolve_method(cls, f.attr) is not None:
                 d = self._only_def(f.value.id)
                 if d is not None and self._is_copy_of_self(d.value, cls):
                     callee = prog.resolve_method(cls, f.attr)
@@ -230,7 +231,7 @@ class Flattener(object):
             if f.id in self.local_defs:
                 return self.local_defs[f.id], None
             # a local name bound once to one of the closures (`book = book_demand`) is that closure
-            if getattr(self, '_node', None) is not None:
+            if getattr(self, '_node', None) is not None and self.local_defs:
                 d = self._only_def(f.id)
                 if d is not None and isinstance(d.value, ast.Name) and d.value.id in self.local_defs:
                     return self.local_defs[d.value.id], None
@@ -1639,10 +1640,16 @@ class Flattener(object):
         cls = self.fi.cls
         if cls is None:
             return None
-        for f in self.prog.all_functions():
-            for n in ast.walk(f.node):
-                if isinstance(n, ast.Attribute) and n.attr == attr and isinstance(n.ctx, (ast.Store, ast.Del)):
-                    return None
+        stored = self.prog.__dict__.get('_stored_attrs')
+        if stored is None:
+            stored = set()
+            for f in self.prog.all_functions():
+                for n in ast.walk(f.node):
+                    if isinstance(n, ast.Attribute) and isinstance(n.ctx, (ast.Store, ast.Del)):
+                        stored.add(n.attr)
+            self.prog.__dict__['_stored_attrs'] = stored
+        if attr in stored:
+            return None
         found = []
         for c in cls.mro:
             node = getattr(c, 'node', None)
